@@ -12,7 +12,9 @@ import (
 	"github.com/btcsuite/btcwallet/wtxmgr"
 
 	"verifsim/core"
+	"verifsim/faultdb"
 	"verifsim/simchain"
+	"verifsim/simrt"
 )
 
 // C12 at wallet level. ledgersim decides the lease rules for wtxmgr.Store on
@@ -60,7 +62,18 @@ func genC12w(r *core.Rand, p *core.Plan) {
 		n = r.Range(10, 36)
 	}
 	for i := 0; i < n; i++ {
-		switch r.Weighted([]int{24, 8, 8, 14, 8, 10, 6, 8, 8}) {
+		switch r.Weighted([]int{24, 8, 8, 14, 8, 10, 6, 8, 8, 8}) {
+		case 9:
+			// a lease beside a coin selection that would take the same coin
+			// (each side starts after a seeded number of scheduling points,
+			// so that every relative offset of the two calls is sampled)
+			dl, ds := int64(0), int64(0)
+			if r.Chance(1, 2) {
+				ds = int64(r.Intn(40))
+			} else {
+				dl = int64(r.Intn(25))
+			}
+			p.Ops = append(p.Ops, core.Op{K: "leaserace", A: []int64{int64(r.Intn(2)), dl, ds}})
 		case 0:
 			p.Ops = append(p.Ops, core.Op{K: "lease12", A: []int64{int64(r.Intn(12)), int64(r.Intn(2)), int64(r.Range(60, 6000))}})
 		case 1:
@@ -173,6 +186,131 @@ func (rs *runState) lease12(step int, op core.Op) {
 		return
 	}
 	x.leases12[c.op] = lease12{id: id, expiry: exp}
+}
+
+// leaserace: LeaseOutput on the coin a largest-first coin selection would
+// take, beside a (dry-run) CreateSimpleTx, both under the scheduler. The two
+// calls overlap, so either order is a legal outcome — except one that the
+// database itself witnesses: if the lease's transaction had COMMITTED before
+// the selecting call's write transaction BEGAN, the selection ran on a state
+// in which the output was leased and must not have taken it.
+func (rs *runState) leaserace(step int, op core.Op) {
+	x := rs.x
+	sn, err0 := x.snap()
+	if err0 != nil {
+		return
+	}
+	var best coin
+	found := false
+	for _, c := range x.sortedCoins() {
+		if _, offered := sn.unspent[c.op]; !offered || c.height < 0 {
+			continue
+		}
+		if cur, held := x.leases12[c.op]; held && !cur.released && time.Now().Before(cur.expiry) {
+			continue
+		}
+		if !found || c.value > best.value {
+			best, found = c, true
+		}
+	}
+	if !found {
+		return
+	}
+	type ev struct{ task, site string }
+	var evs []ev
+	oldY, oldC := x.db.Yield, x.db.AfterCommit
+	x.db.Yield = func(site string) {
+		evs = append(evs, ev{simrt.TaskID(), site})
+		if oldY != nil {
+			oldY(site)
+		}
+	}
+	x.db.AfterCommit = func(d *faultdb.DB) {
+		evs = append(evs, ev{simrt.TaskID(), "committed"})
+		if oldC != nil {
+			oldC(d)
+		}
+	}
+	defer func() { x.db.Yield, x.db.AfterCommit = oldY, oldC }()
+	id := wtxmgr.LockID{byte(1 + uint64(op.Arg(0))%2)}
+	var (
+		lerr, serr error
+		exp        time.Time
+		spends     bool
+		lt, st     string
+		done       int
+	)
+	rs.section++
+	simrt.GoNamed(fmt.Sprintf("lease.%d", rs.section), func() {
+		defer func() { done++ }()
+		lt = simrt.TaskID()
+		for i := int64(0); i < op.Arg(1); i++ {
+			simrt.Yield("harness:lease-later")
+		}
+		exp, lerr = x.w.LeaseOutput(id, best.op, time.Hour)
+	})
+	simrt.GoNamed(fmt.Sprintf("select.%d", rs.section), func() {
+		defer func() { done++ }()
+		st = simrt.TaskID()
+		for i := int64(0); i < op.Arg(2); i++ {
+			simrt.Yield("harness:select-later")
+		}
+		x.foreignN++
+		outs := []*wire.TxOut{{Value: 10000, PkScript: foreignScript(x.foreignN)}}
+		at, err := x.w.CreateSimpleTx(nil, 0, outs, 1, 1000, wallet.CoinSelectionLargest, true)
+		serr = err
+		if err == nil && at != nil {
+			for _, in := range at.Tx.TxIn {
+				if in.PreviousOutPoint == best.op {
+					spends = true
+				}
+			}
+		}
+	})
+	if !x.quiesce(func() bool { return done == 2 }, time.Hour) && !x.violated {
+		x.fail("c12w:stuck:lease-beside-selection", "LeaseOutput and CreateSimpleTx did not both return: %v", simrt.Alive())
+		return
+	}
+	x.env.Count("op.LeaseOutput")
+	x.env.Count("probe.c12w-lease-beside-coin-selection")
+	x.env.Eff()
+	x.env.Logf("%d leaserace %v lease err=%v select err=%v spends=%v", step, best.op, lerr, serr, spends)
+	if lerr != nil {
+		x.fail("c12w:lease-refused", "LeaseOutput(%v, id %d) beside a dry-run CreateSimpleTx failed although the output is not leased to another identifier: %v", best.op, id[0], lerr)
+		return
+	}
+	x.leases12[best.op] = lease12{id: id, expiry: exp}
+	leaseCommitted, selectBegan := -1, -1
+	others := map[string]bool{}
+	for i, e := range evs {
+		if e.task != lt && e.site == "update.begin" {
+			others[e.task] = true
+		}
+		if e.task == lt && e.site == "committed" && leaseCommitted < 0 {
+			leaseCommitted = i
+		}
+		// CreateSimpleTx is served by the wallet's transaction-creator
+		// goroutine: the selecting transaction is the read-write transaction
+		// begun by any task other than the leasing one
+		if e.task != lt && e.site == "update.begin" {
+			selectBegan = i
+		}
+	}
+	_ = st
+	if len(others) != 1 {
+		// some other goroutine of the wallet wrote to the database meanwhile:
+		// which transaction was the selecting one cannot be told
+		x.env.Count("probe.c12w-lease-beside-selection:no-verdict")
+		return
+	}
+	if leaseCommitted >= 0 && selectBegan >= 0 && leaseCommitted < selectBegan {
+		x.env.Count("probe.c12w-lease-committed-before-the-selecting-transaction-began")
+		if spends {
+			x.fail("c12w:leased-output-selected:lease-committed-before-the-selecting-transaction-began", "the lease on %v (id %d) was committed before CreateSimpleTx began its database transaction, and the transaction it built spends that output", best.op, id[0])
+		}
+	} else if spends {
+		x.env.Count("probe.c12w-selection-before-the-lease")
+	}
 }
 
 func (rs *runState) release12(step int, op core.Op) {
